@@ -92,7 +92,14 @@ fn check_mapper(rng: &mut Rng, res: &mut CaseResult) {
     let p = ase.palette().unwrap();
     let failure = rng.u8();
     let transparent = if rng.chance(1, 2) { Some(rng.u8()) } else { None };
+    // every other case: another mapper with OTHER options was built on the same palette before (and one after):
+    // a mapper's answers depend on its own options only
+    let earlier = if rng.chance(1, 2) { Some(PaletteMapper::new(p, MappingOptions { failure: failure.wrapping_add(77), transparent: Some(failure.wrapping_add(3)) })) } else { None };
     let mapper = PaletteMapper::new(p, MappingOptions { failure, transparent });
+    let _later = PaletteMapper::new(p, MappingOptions { failure: failure.wrapping_add(1), transparent: None });
+    if earlier.is_some() {
+        res.count("mappers_built_after_another_mapper_on_the_same_palette", 1);
+    }
     res.count("mappers", 1);
     // allowed answers per the statement
     let below: Vec<(u32, [u8; 4])> = pal.iter().filter(|(k, _)| **k < 256).map(|(k, e)| (*k, e.rgba)).collect();
@@ -157,6 +164,16 @@ fn check_mapper(rng: &mut Rng, res: &mut CaseResult) {
             img.put_pixel(x, y, image::Rgba(q));
         }
     }
+    // an image may own a buffer longer than its pixels need (RgbaImage::from_raw accepts that): one index per PIXEL
+    let img = if rng.chance(1, 3) {
+        let mut raw = img.into_raw();
+        let extra = *rng.pick(&[4usize, 8, 64, 3]);
+        raw.extend(rng.bytes(extra));
+        res.count("indexed_images_with_oversized_buffer", 1);
+        RgbaImage::from_raw(w, h, raw).expect("a longer buffer is a valid image buffer")
+    } else {
+        img
+    };
     let ((ow, oh), data) = to_indexed_image(img.clone(), &mapper);
     res.count("indexed_images", 1);
     if (ow, oh) != (w, h) || data.len() != (w * h) as usize {
